@@ -154,28 +154,30 @@ Definition obs_first_hop (o : obs) : option (option (str * bool * role)) :=
 
 (* per case: one host, exercised by a plain http request, a CONNECT (+ inner request), an https request in
    absolute form, and (configurations with MITM) a request inside the MITM'd tunnel *)
-Record ecase := { ec_cfg : cfgd; ec_rules : list rule;
+Record ecase := { ec_rules : list rule;
                   ec_attempts : nat; ec_failures : nat;   (* Dialer retry setting; scripted dial failures per request *)
-                  ec_plain : option (target * obs); ec_connect : option (target * obs);
-                  ec_tls : option (target * obs); ec_mitm : option (target * obs) }.
+                  (* each request carries the oracle answers for THAT request (a PAC script may answer by URL) *)
+                  ec_plain : option (cfgd * target * obs); ec_connect : option (cfgd * target * obs);
+                  ec_tls : option (cfgd * target * obs); ec_mitm : option (cfgd * target * obs) }.
 Definition part_ok (f : config -> list rule -> target -> nat -> nat -> list event) (c : ecase)
-                   (p : option (target * obs)) : bool :=
+                   (p : option (cfgd * target * obs)) : bool :=
   match p with
-  | Some (t, o) => obs_is o (f (cfg_of (ec_cfg c)) (ec_rules c) t (ec_attempts c) (ec_failures c))
+  | Some (d, t, o) => obs_is o (f (cfg_of d) (ec_rules c) t (ec_attempts c) (ec_failures c))
   | None => true
   end.
 Definition ecase_model_ok (c : ecase) : bool :=
   part_ok exchange c (ec_plain c) && part_ok exchange c (ec_connect c) &&
   part_ok exchange c (ec_tls c) && part_ok exchange c (ec_mitm c).
-(* the property: each request's socket events are exactly the spec's (one party: the one the short spec names,
-   or nobody when it says the request fails), and the plain request and the CONNECT for the same host agree
-   on the first hop *)
+(* the property: each request's socket events are exactly the spec's (one party: the one the short spec names
+   for that request, or nobody when it says the request fails), and when the configuration names the same hop
+   for the plain request and the CONNECT for the same host, they agree on the first hop *)
 Definition ecase_prop_ok (c : ecase) : bool :=
   part_ok spec_exchange c (ec_plain c) && part_ok spec_exchange c (ec_connect c) &&
   part_ok spec_exchange c (ec_tls c) && part_ok spec_exchange c (ec_mitm c) &&
   match ec_plain c, ec_connect c with
-  | Some (tp, op), Some (tc, oc) =>
+  | Some (dp, tp, op), Some (dc, tc, oc) =>
       if str_eqb (t_scheme tp) (b "http") && str_eqb (spec_target_addr tp) (spec_target_addr tc) &&
+         hop_eqb (spec_hop (cfg_of dp) tp) (spec_hop (cfg_of dc) tc) &&
          Nat.ltb (ec_failures c) (effective_attempts (ec_attempts c)) then
         match obs_first_hop op, obs_first_hop oc with
         | Some x, Some y => first_hop_eqb x y
@@ -184,6 +186,18 @@ Definition ecase_prop_ok (c : ecase) : bool :=
       else true
   | _, _ => true
   end.
+
+(* ---------- H: history independence of the PAC resolver: a sequence of look-ups on ONE resolver (bare, and
+   through the pool), each answer next to the answer of a fresh resolver asked only that question *)
+Record hcase := { h_answers : list (option str * option str) }.
+Definition hcase_model_ok (c : hcase) : bool :=
+  forallb (fun p => opt_eqb str_eqb (fst p) (snd p)) (h_answers c).
+Definition hcase_prop_ok (c : hcase) : bool := hcase_model_ok c.
+
+(* ---------- L: hp.isLocalhost on the host pool against the small reference *)
+Record lcase := { lc_aliases : list str; lc_host : str; lc_out : bool }.
+Definition lcase_model_ok (c : lcase) : bool := Bool.eqb (localhost_ref (lc_aliases c) (lc_host c)) (lc_out c).
+Definition lcase_prop_ok (c : lcase) : bool := lcase_model_ok c.
 
 (* indices (from 0) of the cases on which f fails *)
 Fixpoint bad_from {A} (f : A -> bool) (i : N) (l : list A) : list N :=
